@@ -27,9 +27,9 @@ type DLink struct {
 }
 
 type DirsInput struct {
-	Links   []DLink `json:"links"`
-	Kind    string  `json:"kind"`    // dir | nodata | symlink | metadata | garbage
-	Encoded bool    `json:"encoded"` // round trip through the dag-pb codec (which sorts the links)
+	Links   []DLink  `json:"links"`
+	Kind    string   `json:"kind"`    // dir | nodata | symlink | metadata | garbage
+	Encoded bool     `json:"encoded"` // round trip through the dag-pb codec (which sorts the links)
 	Keys    []string `json:"keys"`
 }
 
@@ -112,7 +112,7 @@ func dirDataFor(kind string) ([]byte, bool) {
 }
 
 type DirsObs struct {
-	NodeLinks []DLink    // links in the order of the node actually reified
+	NodeLinks []DLink // links in the order of the node actually reified
 	Length    int64
 	Iter      [][2]string // key, target id (as string) from MapIterator
 	IterDone  bool        // Done() after Length pairs
